@@ -200,7 +200,7 @@ def build_T5(tree):
         raise Unsupported(f'ORDER BY / format calls of the tiled-region query changed: {others}')
     # the generator iterates the executed full query and the missing-frame test compares the count query with v*h frames
     body_txt = ''.join(ast.unparse(fn).split())
-    for needle in ("forrp,cp,fi,*channelinself._db_con.execute(full_query)",
+    for needle in ("cursor=self._db_con.execute(full_query)", "forrp,cp,fi,*channelincursor", "finally:cursor.close()",
                    "found_number=next(self._db_con.execute(counting_query))[0]",
                    "number_of_output_frames=v_frames*h_frames",
                    "iffound_number!=number_of_output_frames:raiseRuntimeError("):
